@@ -24,6 +24,8 @@ enum Expect {
 struct Case {
     name: String,
     text: String,
+    /// the input as bytes where it is not valid UTF-8 (`text` then holds a lossy rendering for reports)
+    raw: Option<Vec<u8>>,
     /// "json" | "gambit" | "auto"
     format_arg: &'static str,
     ext: &'static str,
@@ -63,7 +65,7 @@ fn json_cases(rng: &mut Rng, tree: &HNode, out: &mut Vec<Case>) {
     let perr = if arg == "auto" && ext == "json" { vec![JSON_ERR] } else { parse_err_for(Format::Json, arg) };
     let mut push = |name: &str, text: Option<String>, expect: Expect| {
         if let Some(text) = text {
-            out.push(Case { name: format!("json:{}", name), text, format_arg: arg, ext, expect });
+            out.push(Case { name: format!("json:{}", name), text, raw: None, format_arg: arg, ext, expect });
         }
     };
     let k = rng.next() as usize;
@@ -112,6 +114,33 @@ fn json_cases(rng: &mut Rng, tree: &HNode, out: &mut Vec<Case>) {
         11 => push("chance-infoset-dropped(valid)", replace_nth(t, "\"infoset\": null", "\"other\": null", k), Expect::DontCare("unknown-extra-json-field")),
         12 => push("wrong-format-selected", Some(t.clone()), Expect::Reject(vec![GAMBIT_ERR])),
         13 => push("garbage", Some((*rng.pick(&["", "   ", "random", "{", "[]", "null", "{\"terminal\": }", "\u{0}\u{1}"])).to_string()), Expect::Reject(perr)),
+        14 | 15 if arg == "json" || ext == "json" => {
+            // a byte sequence that is not UTF-8 inside a quoted name: not JSON at all
+            let bytes = t.as_bytes();
+            let mut inside = false;
+            let mut esc = false;
+            let mut spots: Vec<usize> = Vec::new();
+            for (i, b) in bytes.iter().enumerate() {
+                if esc {
+                    esc = false;
+                    continue;
+                }
+                match b {
+                    b'\\' if inside => esc = true,
+                    b'"' => inside = !inside,
+                    _ if inside && b.is_ascii_alphanumeric() => spots.push(i),
+                    _ => {}
+                }
+            }
+            if !spots.is_empty() {
+                let at = spots[k % spots.len()];
+                let bad: &[u8] = *rng.pick(&[&[0xffu8][..], &[0xe9], &[0xc3], &[0xc0, 0xaf], &[0xed, 0xa0, 0x80]]);
+                let mut raw = bytes[..at].to_vec();
+                raw.extend_from_slice(bad);
+                raw.extend_from_slice(&bytes[at + 1..]);
+                out.push(Case { name: "json:invalid-utf8-inside-a-name".into(), text: String::from_utf8_lossy(&raw).to_string(), raw: Some(raw), format_arg: arg, ext, expect: Expect::Reject(if arg == "auto" { vec![JSON_ERR, AUTO_ERR] } else { vec![JSON_ERR] }) });
+            }
+        }
         _ => {
             // contract violations of C11 expressed in the DSL
             let mut bad = tree.clone();
@@ -160,7 +189,7 @@ fn efg_cases(rng: &mut Rng, tree: &HNode, out: &mut Vec<Case>) {
     let k = rng.next() as usize;
     let mut push = |name: &str, text: Option<String>, expect: Expect| {
         if let Some(text) = text {
-            out.push(Case { name: format!("gambit:{}", name), text, format_arg: arg, ext, expect });
+            out.push(Case { name: format!("gambit:{}", name), text, raw: None, format_arg: arg, ext, expect });
         }
     };
     match kind {
@@ -311,7 +340,10 @@ fn efg_cases(rng: &mut Rng, tree: &HNode, out: &mut Vec<Case>) {
                 let toks: Vec<&str> = lines[i].split_whitespace().collect();
                 let key = format!("p \"\" {} {} ", toks[2], toks[3]);
                 let l2: Vec<String> = lines.iter().map(|s| if s.starts_with(&key) { s.replacen("\"a1\"", "\"a0\"", 1) } else { s.to_string() }).collect();
-                push("duplicate-action-in-node", Some(l2.join("\n") + "\n"), Expect::Reject(vec![GAME_ERR]));
+                // (names decorated with quotes do not match the pattern: nothing changed, no case)
+                if l2.iter().zip(lines.iter()).any(|(a, b)| a != b) {
+                    push("duplicate-action-in-node", Some(l2.join("\n") + "\n"), Expect::Reject(vec![GAME_ERR]));
+                }
             }
         }
         16 => push("garbage", Some((*rng.pick(&["", "EFG", "EFG 2 R \"\" { \"a\" \"b\" }", "t \"\" 1 { 0 0 }", "\u{0}"])).to_string()), Expect::Reject(perr)),
@@ -335,6 +367,34 @@ fn efg_cases(rng: &mut Rng, tree: &HNode, out: &mut Vec<Case>) {
             c.format_arg = "json";
         }
     }
+    // now and then additionally: a byte sequence that is not UTF-8 inside a quoted label
+    if rng.chance(0.08) {
+        let bytes = t.as_bytes();
+        let mut inside = false;
+        let mut esc = false;
+        let mut spots: Vec<usize> = Vec::new();
+        for (i, b) in bytes.iter().enumerate() {
+            if esc {
+                esc = false;
+                continue;
+            }
+            match b {
+                b'\\' if inside => esc = true,
+                b'"' => inside = !inside,
+                _ if inside && b.is_ascii_alphanumeric() => spots.push(i),
+                _ => {}
+            }
+        }
+        if !spots.is_empty() {
+            let at = spots[k % spots.len()];
+            let bad: &[u8] = *rng.pick(&[&[0xffu8][..], &[0xe9], &[0xc3], &[0xc0, 0xaf]]);
+            let mut raw = bytes[..at].to_vec();
+            raw.extend_from_slice(bad);
+            raw.extend_from_slice(&bytes[at + 1..]);
+            let expect = Expect::Reject(if arg == "auto" { vec![GAMBIT_ERR, AUTO_ERR] } else { vec![GAMBIT_ERR] });
+            out.push(Case { name: "gambit:invalid-utf8-inside-a-label".into(), text: String::from_utf8_lossy(&raw).to_string(), raw: Some(raw), format_arg: arg, ext, expect });
+        }
+    }
 }
 
 pub fn run(ctx: &mut Ctx) {
@@ -345,6 +405,8 @@ pub fn run(ctx: &mut Ctx) {
     ctx.run_cases(n, |ctx, idx, rng| {
         let size = *rng.pick(&[0usize, 1, 1]);
         let (desc, tree) = files::cli_game(rng, size, true);
+        // a quarter of the games carry names with quotes, backslashes and multi-byte characters
+        let tree = if rng.chance(0.25) { files::fancy_names_with(&tree, "\u{e9}\u{3042}\u{3044}\u{1f600}") } else { tree };
         let mut cases: Vec<Case> = Vec::new();
         if rng.chance(0.5) {
             json_cases(rng, &tree, &mut cases);
@@ -353,7 +415,10 @@ pub fn run(ctx: &mut Ctx) {
         }
         for c in cases {
             let path = format!("{}/c17-{}-{}.{}", scratch, ctx.shard, idx % 64, c.ext);
-            std::fs::write(&path, &c.text).unwrap();
+            match &c.raw {
+                Some(raw) => std::fs::write(&path, raw).unwrap(),
+                None => std::fs::write(&path, &c.text).unwrap(),
+            }
             let via_stdin = rng.chance(0.2);
             let mut args: Vec<String> = vec!["-m".into(), "full".into(), "-t".into(), "3".into(), "-p".into(), "1".into()];
             if c.format_arg != "auto" || rng.chance(0.5) {
@@ -365,12 +430,13 @@ pub fn run(ctx: &mut Ctx) {
                 args.extend(["-o".to_string(), opath.clone()]);
             }
             // stdin has no extension: auto then really auto-detects
-            let (stdin, eff_ext) = if via_stdin { (Some(c.text.as_str()), "") } else { (None, c.ext) };
+            let input_bytes: &[u8] = c.raw.as_deref().unwrap_or(c.text.as_bytes());
+            let (stdin, eff_ext) = if via_stdin { (Some(input_bytes), "") } else { (None, c.ext) };
             if !via_stdin {
                 args.extend(["-i".to_string(), path.clone()]);
             }
             ctx.mark(idx, &c.name);
-            let r = cli::run(&cli_path, &args, stdin, Duration::from_secs(60));
+            let r = cli::run_bytes(&cli_path, &args, stdin, Duration::from_secs(60));
             let file_out = if to_file { std::fs::read_to_string(&opath).unwrap_or_default() } else { String::new() };
             let _ = std::fs::remove_file(&opath);
             let _ = std::fs::remove_file(&path);
@@ -384,7 +450,7 @@ pub fn run(ctx: &mut Ctx) {
             if r.status == Some(0) && c.format_arg == "auto" && !matches!(c.expect, Expect::Accept) {
                 let explicit = |fmt: &str| {
                     let a: Vec<String> = vec!["-m".into(), "full".into(), "-t".into(), "3".into(), "-p".into(), "1".into(), "--input-format".into(), fmt.into()];
-                    cli::run(&cli_path, &a, Some(c.text.as_str()), Duration::from_secs(60))
+                    cli::run_bytes(&cli_path, &a, Some(input_bytes), Duration::from_secs(60))
                 };
                 let (rj, rg) = (explicit("json"), explicit("gambit"));
                 ctx.count("auto-accepted-inputs-cross-checked-against-explicit-formats", 1);
@@ -449,7 +515,7 @@ pub fn run(ctx: &mut Ctx) {
         }
     });
     ctx.finish(crate::report::extra(
-        "cases = corrupted inputs to the shipped binary, each derived from a valid generated file, under --input-format {json,gambit,auto}, via -i file (extensions .json/.efg/.txt) or stdin, to stdout or -o file. JSON: truncation, trailing data after a complete game (stray bracket, second document, comment), dropped/renamed required fields, wrong types, prob in {0,-1,-0.0}, all weights negative, overflowing payoff literal, garbage/empty input, wrong format selected, C11 contract violations (empty chance/player, renamed action at one node, added/dropped action, forgotten own action, relabelling across branches) written in the DSL; extra unknown fields and fields stated twice are don't-care as such, but whatever auto-detection accepts must be accepted under one of the explicit formats (auto-vs-explicit rule). Gambit: truncation at a token boundary, 1 or 3 players, wrong header, dropped action list, terminal without payoffs, chance list not summing to 1, zero/negative chance probability summing to 1, non-finite payoffs (1e999), unnamed infoset whose number is another infoset's explicit name (same player), two infoset numbers of one player with the same explicit name, one payoff perturbed by {0.5,1.01,2,100} x the documented 0.1% constant-sum tolerance (0.5x must be ACCEPTED; in half of these files a zero-sum outcome 256 x the payoff range sits at the root, which every play passes through and which leaves the range of path totals unchanged), an interior-node outcome with a non-zero pair sum (stated in place or attached by outcome number only, payoffs stated elsewhere) that the terminals below it do not compensate, duplicate action inside a node, imperfect recall, wrong format selected, garbage. Required for invalid input: non-zero exit status that is not a signal, no result object on stdout or in the -o file, and a diagnostic containing a documented category (#json-error, #gambit-error, #auto-error, #game-error, #duplicate-infosets, #constant-sum, 'players', 'non-finite'); a documented category other than the expected one is counted, not failed. distinct = hash(input text, corruption); non-trivial = every case.",
+        "cases = corrupted inputs to the shipped binary, each derived from a valid generated file, under --input-format {json,gambit,auto}, via -i file (extensions .json/.efg/.txt) or stdin, to stdout or -o file. A quarter of the games carry names with quotes, backslashes and multi-byte characters. JSON: a byte sequence that is not UTF-8 inside a quoted name (fed as raw bytes), truncation, trailing data after a complete game (stray bracket, second document, comment), dropped/renamed required fields, wrong types, prob in {0,-1,-0.0}, all weights negative, overflowing payoff literal, garbage/empty input, wrong format selected, C11 contract violations (empty chance/player, renamed action at one node, added/dropped action, forgotten own action, relabelling across branches) written in the DSL; extra unknown fields and fields stated twice are don't-care as such, but whatever auto-detection accepts must be accepted under one of the explicit formats (auto-vs-explicit rule). Gambit: a byte sequence that is not UTF-8 inside a quoted label, truncation at a token boundary, 1 or 3 players, wrong header, dropped action list, terminal without payoffs, chance list not summing to 1, zero/negative chance probability summing to 1, non-finite payoffs (1e999), unnamed infoset whose number is another infoset's explicit name (same player), two infoset numbers of one player with the same explicit name, one payoff perturbed by {0.5,1.01,2,100} x the documented 0.1% constant-sum tolerance (0.5x must be ACCEPTED; in half of these files a zero-sum outcome 256 x the payoff range sits at the root, which every play passes through and which leaves the range of path totals unchanged), an interior-node outcome with a non-zero pair sum (stated in place or attached by outcome number only, payoffs stated elsewhere) that the terminals below it do not compensate, duplicate action inside a node, imperfect recall, wrong format selected, garbage. Required for invalid input: non-zero exit status that is not a signal, no result object on stdout or in the -o file, and a diagnostic containing a documented category (#json-error, #gambit-error, #auto-error, #game-error, #duplicate-infosets, #constant-sum, 'players', 'non-finite'); a documented category other than the expected one is counted, not failed. distinct = hash(input text, corruption); non-trivial = every case.",
         &["validity of each corrupted input is known by construction (the harness knows what it broke); unknown extra JSON fields and duplicate JSON keys are don't-care"],
     ));
 }
